@@ -363,6 +363,8 @@ impl<'a> Lexer<'a> {
                 return Ok(Token::StringTok);
             }
         }
+        // Consume the final byte too, so that the error span ends on a character boundary.
+        self.bytes.next();
         Err("Unterminated multiline string. Add \"# after the end of your string.".to_string())
     }
 
